@@ -137,7 +137,7 @@ def run(ctx):
             raise Undecided("simulation of the real spec reported %s" % (rS.violations or rS.errors)[:1])
         totals["transitions"] += rS.generated
         scheds = cc.sim_to_scheds(ctx, ctx.spec_copy(), pref)
-        attacks = [a for a in load_attacks() if a["powers"] == powers and a["byz"] == byz3]
+        attacks = [a for a in load_attacks() if a["powers"] == powers and a["byz"] == byz3] + cc.load_prefixes(powers, byz3)
         for k, a in enumerate(attacks):
             scheds.append({"id": 100000 + k, "steps": a["steps"]})
         inp = {"mode": "replay", "powers": powers, "byz": byz3, "maxround": 12, "scheds": scheds, "synctail": True, "byzafter": True,
